@@ -71,11 +71,15 @@ pub fn oracle_loco_step(st: &LocoStep, post: &Locomotive) -> Vec<String> {
 fn loco_yaml(l: &Locomotive) -> String { serde_yaml::to_string(l).unwrap_or_default() }
 
 pub fn loco_step_case(id: String, st: &LocoStep, kind: &str, oracle: &dyn Fn(&LocoStep, &Locomotive) -> Vec<String>) -> Case {
+    loco_step_case2(id, st, kind, &|a, b| (oracle(a, b), vec![]))
+}
+
+pub fn loco_step_case2(id: String, st: &LocoStep, kind: &str, oracle: &dyn Fn(&LocoStep, &Locomotive) -> (Vec<String>, Vec<String>)) -> Case {
     let coq = format!("x_loco_step {} {} {} {}", coq_loco(&st.pre), cf(st.pwr), cf(st.dt), cb(st.engine_on));
     let is_conv = matches!(st.pre.loco_type, PowertrainType::ConventionalLoco(_));
     let mut tags = vec![format!("loco:{}", if is_conv { "conv" } else { "bel" }), format!("mode:{}", st.mode),
         format!("engine:{}", if st.engine_on { "on" } else { "off" })];
-    let (outcome, fails) = match &st.post {
+    let (outcome, (fails, known)) = match &st.post {
         Ok(post) => {
             tags.push("result:ok".into());
             let e = match &post.loco_type { PowertrainType::ConventionalLoco(c) => &c.edrv, PowertrainType::BatteryElectricLoco(b) => &b.edrv, _ => unreachable!() };
@@ -83,12 +87,12 @@ pub fn loco_step_case(id: String, st: &LocoStep, kind: &str, oracle: &dyn Fn(&Lo
             if e.state.pwr_mech_prop_out.value < 0.0 { tags.push("regen:yes".into()); }
             (Outcome::Ok(outs_loco(post)), oracle(st, post))
         }
-        Err((-1, m)) => { tags.push("result:panic".into()); (Outcome::Panic(m.clone()), vec![]) }
-        Err((c, m)) => { tags.push(format!("result:err{}", c)); (Outcome::Err(*c, m.clone()), vec![]) }
+        Err((-1, m)) => { tags.push("result:panic".into()); (Outcome::Panic(m.clone()), (vec![], vec![])) }
+        Err((c, m)) => { tags.push(format!("result:err{}", c)); (Outcome::Err(*c, m.clone()), (vec![], vec![])) }
     };
     Case { id, kind: kind.into(), coq, outcome, tags,
         input: json!({"loco_yaml": loco_yaml(&st.pre), "pwr": fjson(st.pwr), "dt": fjson(st.dt), "engine_on": st.engine_on}),
-        oracle_fail: fails, known: vec![], in_domain: true }
+        oracle_fail: fails, known, in_domain: true }
 }
 
 fn interp1d_cases(r: &mut Rng, n: usize, sink: &mut Sink) {
